@@ -250,10 +250,19 @@ func (fx *FnExec) doCall(st *State, instr ssa.Instruction, c *ssa.CallCommon) []
 		if mc := fx.closureOf(c.Value); mc != nil {
 			ms = fx.g.eff.of(mc.Fn.(*ssa.Function))
 			key = funcKey(mc.Fn.(*ssa.Function))
-		} else if g := returnedClosureOf(c.Value); g != nil {
-			// unlock := lockWithTrace(...); unlock(): the value called is the one function literal F returns
-			ms = fx.g.eff.of(g)
-			key = funcKey(g)
+		} else if gs := returnedClosuresOf(c.Value); len(gs) > 0 {
+			// unlock := lockWithTrace(...); unlock(): the value called is one of the function literals F returns
+			ms = NewModSet()
+			for _, g := range gs {
+				gm := fx.g.eff.of(g)
+				if gm.All {
+					ms.All = true
+				}
+				for k := range gm.Keys {
+					ms.Add(k)
+				}
+			}
+			key = funcKey(gs[0])
 		}
 	default:
 		ms = fx.g.eff.external(key)
@@ -379,8 +388,20 @@ func (fx *FnExec) builtin(st *State, b *ssa.Builtin, c *ssa.CallCommon, instr ss
 		}
 	case "cap":
 		x := fx.val(c.Args[0])
-		if _, ok := c.Args[0].Type().Underlying().(*types.Slice); ok {
+		switch u := c.Args[0].Type().Underlying().(type) {
+		case *types.Slice:
 			return []Term{App("sl.cap", SInt, x)}
+		case *types.Array:
+			return []Term{IntLit(u.Len())}
+		case *types.Pointer:
+			if at, ok := u.Elem().Underlying().(*types.Array); ok {
+				return []Term{IntLit(at.Len())}
+			}
+		case *types.Chan:
+			// the capacity of a channel is not modelled: some non-negative number
+			r := fx.sc.Fresh("chancap", SInt)
+			fx.sc.Assume(App(">=", SBool, r, TZero))
+			return []Term{r}
 		}
 	case "append":
 		return []Term{fx.builtinAppend(st, c, instr)}
@@ -755,11 +776,12 @@ func (fx *FnExec) siteOrdinal(instr ssa.Instruction, calleeName string) int {
 	return 0
 }
 
-// returnedClosureOf resolves a called function value to a function literal when the value is the result of a
-// static call to a function of this program all of whose return statements return a closure over the SAME literal
-// (directly, or through a local assigned exactly once from such a call). Only the literal's code is used (its
-// inferred write set); nothing is assumed about which variables it captured.
-func returnedClosureOf(v ssa.Value) *ssa.Function {
+// returnedClosuresOf resolves a called function value to the function literals it can be when the value is a result
+// (the only one, or one component of the result tuple) of a static call to a function of this program ALL of whose
+// return statements return, in that position, a closure over a function literal - directly, or through a local
+// assigned exactly once from such a call. Only the literals' code is used (the union of their inferred write sets);
+// nothing is assumed about which variables they captured.
+func returnedClosuresOf(v ssa.Value) []*ssa.Function {
 	if ld, ok := v.(*ssa.UnOp); ok && ld.Op.String() == "*" {
 		a, ok := ld.X.(*ssa.Alloc)
 		if !ok || a.Heap || a.Referrers() == nil {
@@ -780,31 +802,83 @@ func returnedClosureOf(v ssa.Value) *ssa.Function {
 		}
 		v = src
 	}
+	idx := 0
+	if ex, ok := v.(*ssa.Extract); ok {
+		idx = ex.Index
+		v = ex.Tuple
+	}
 	call, ok := v.(*ssa.Call)
 	if !ok {
 		return nil
 	}
 	f := call.Call.StaticCallee()
-	if f == nil || len(f.Blocks) == 0 || f.Signature.Results().Len() != 1 {
+	if f == nil || len(f.Blocks) == 0 || idx >= f.Signature.Results().Len() {
 		return nil
 	}
-	var lit *ssa.Function
+	var lits []*ssa.Function
 	for _, b := range f.Blocks {
 		for _, in := range b.Instrs {
 			ret, ok := in.(*ssa.Return)
 			if !ok {
 				continue
 			}
-			mc := closureOfValue(ret.Results[0])
-			if mc == nil {
+			if idx >= len(ret.Results) {
 				return nil
 			}
-			g, ok := mc.Fn.(*ssa.Function)
-			if !ok || (lit != nil && lit != g) {
+			mcs := closuresOfValue(ret.Results[idx])
+			if len(mcs) == 0 {
 				return nil
 			}
-			lit = g
+			for _, mc := range mcs {
+				g, ok := mc.Fn.(*ssa.Function)
+				if !ok {
+					return nil
+				}
+				dup := false
+				for _, l := range lits {
+					if l == g {
+						dup = true
+					}
+				}
+				if !dup {
+					lits = append(lits, g)
+				}
+			}
 		}
 	}
-	return lit
+	return lits
+}
+
+// closuresOfValue: the function literals a value can be when it is a closure or the content of a local (not
+// address-taken) variable that is only ever assigned closures.
+func closuresOfValue(v ssa.Value) []*ssa.MakeClosure {
+	if mc, ok := v.(*ssa.MakeClosure); ok {
+		return []*ssa.MakeClosure{mc}
+	}
+	ld, ok := v.(*ssa.UnOp)
+	if !ok || ld.Op.String() != "*" {
+		return nil
+	}
+	a, ok := ld.X.(*ssa.Alloc)
+	if !ok || a.Heap || a.Referrers() == nil {
+		return nil
+	}
+	var out []*ssa.MakeClosure
+	for _, r := range *a.Referrers() {
+		switch s := r.(type) {
+		case *ssa.Store:
+			if s.Addr != a {
+				return nil
+			}
+			mc, isMC := s.Val.(*ssa.MakeClosure)
+			if !isMC {
+				return nil
+			}
+			out = append(out, mc)
+		case *ssa.UnOp, *ssa.DebugRef:
+		default:
+			return nil
+		}
+	}
+	return out
 }
